@@ -225,6 +225,22 @@ where
             return 0;
         }
     }
+    // interpreter stages: a fixed number of cases per loop and shard (VERIF_TAKE), picked by hash
+    let take = if only.is_some() { 0 } else { std::env::var("VERIF_TAKE").ok().and_then(|v| v.parse::<u64>().ok()).unwrap_or(0) };
+    if take > 0 && total > 0 {
+        let shard = stride().1;
+        let mut picked: Vec<u64> = (0..take.min(total)).map(|j| splitmix(&mut (shard.wrapping_mul(1_000_003) ^ (phase << 32) ^ j)) % total).collect();
+        picked.sort();
+        picked.dedup();
+        let mut done = 0;
+        for i in picked {
+            CURRENT_CASE.with(|c| c.set((phase, i)));
+            let _ = f(i);
+            CURRENT_CASE.with(|c| c.set((u64::MAX, 0)));
+            done += 1;
+        }
+        return done;
+    }
     let next = AtomicU64::new(only.map_or(0, |o| o.1));
     let total = only.map_or(total, |o| (o.1 + 1).min(total));
     let done = AtomicU64::new(0);
